@@ -3,7 +3,7 @@
 # Confirms a sub-agent's seeded change in its scratch worktree: suite passes with the change, demo fails with it and passes without.
 set -u
 P=$1; M=$2; shift 2
-W=/tmp/seed-$P
+W=${SEEDBASE:-/tmp/seed}-$P
 D=$W/out/$M
 export GOFLAGS=-mod=mod GOPROXY=off
 cd $W || exit 2
